@@ -345,8 +345,17 @@ func registerIntrinsics(m *Machine) {
 	I["fmt.Fprintln"] = redirect("vmFprintln")
 	I["strconv.AppendInt"] = inline(func(m *Machine, it *Item, a []Value) Value {
 		b, v := a[0].(Text), a[1].(T)
+		if k, ok := v.Int64(); ok {
+			// concrete number: concrete digit count
+			n := int64(len(fmt.Sprint(k)))
+			d := Text{W: m.IntC(0), N: m.IntC(n), NL: m.IntC(0), CUU: v, ID: m.textID(fmt.Sprintf("int:%d", k))}
+			m.Assumptions["strconv.AppendInt is only used to build the cursor-up escape sequence (its digits have no display width)"] = true
+			return m.Concat(b, d)
+		}
 		d := m.FreshText("digits")
-		m.Assume(c.And(m.sle(m.IntC(1), d.N), m.sle(d.N, m.IntC(20)), c.Eq(d.W, d.N)), "strconv.AppendInt appends 1..20 digits")
+		m.Assume(c.And(m.sle(m.IntC(1), d.N), m.sle(d.N, m.IntC(20))), "strconv.AppendInt appends 1..20 digits")
+		d.W = m.IntC(0) // only used inside the cursor-up escape sequence: no display width
+		m.Assumptions["strconv.AppendInt is only used to build the cursor-up escape sequence (its digits have no display width)"] = true
 		d.CUU = v
 		return m.Concat(b, d)
 	})
@@ -479,6 +488,9 @@ func (m *Machine) cancelObj(g T, o *Object) {
 		m.heap.Set(d.Obj, 0, c.Or(closed, c.And(g, d.G)))
 	}
 	for _, ch := range o.Children {
+		if m.heap.lookup(ch) == nil {
+			continue // child context created on another (exclusive) branch of this step
+		}
 		m.cancelObj(g, ch)
 	}
 }
